@@ -18,7 +18,7 @@ LEVEL = "model_checking"
 
 ALPHA = ["a", "a$b", "fi''", "break", "x=1", "!", "{", "}", "for", "case", "esac", "in", "if", "elif", "then", "else", "fi", "while", "until",
          "do", "done", ";", "&", "&&", "||", "|", ";;", "(", ")", "\n", ">", "2>", "((1))"]
-BROKEN = ["`(a`)", "${#x:-y}", "${#x#y}", "${1a}", "'u", "\"u", "${u", "$(u", "$((u", "`u", "((1) ))", "((1)", "$((1) ))", "${u:", "${u:-'}", "\"$(u\"", "\"${u\"", "${", "${}"]
+BROKEN = ["`a)", "`a;a)", "`(a`)", "${#x:-y}", "${#x#y}", "${1a}", "'u", "\"u", "${u", "$(u", "$((u", "`u", "((1) ))", "((1)", "$((1) ))", "${u:", "${u:-'}", "\"$(u\"", "\"${u\"", "${", "${}"]
 
 
 def tla_seq(xs):
